@@ -66,6 +66,13 @@ type Sched struct {
 	StepCap      bool
 	Stalled      bool // baton holder blocked without releasing
 	Preemptions  uint64
+	// thread-stall fault (off unless StallBudget > 0): at a pre-emption point, with probability
+	// 1/StallDen, the task sleeps 1..StallMaxMs simulated milliseconds
+	StallBudget int
+	StallDen    uint32
+	StallMaxMs  uint32
+	StallSite   func(site string) bool // optional filter on the task's spawn site
+	Stalls      int
 	Start        time.Time
 
 	hash    uint64
@@ -270,6 +277,16 @@ func Yield() {
 		return
 	}
 	s.Preemptions++
+	if s.StallBudget > 0 && s.StallDen > 0 && (s.StallSite == nil || s.StallSite(t.Site)) && s.Tape.Choose(s.StallDen) == 0 {
+		// fault: a stalled thread. The task loses the processor for a while of simulated time at
+		// this pre-emption point (a slow or descheduled thread), everything else carries on.
+		s.StallBudget--
+		s.Stalls++
+		d := time.Duration(1+s.Tape.Choose(s.StallMaxMs)) * time.Millisecond
+		s.Event("stall", t.Site)
+		Sleep(d)
+		return
+	}
 	s.release(t, stInOp)
 	s.acquire(t)
 }
